@@ -263,6 +263,15 @@ def reorderGlyphs(font: ttLib.TTFont, new_glyph_order: List[str]):
     if not_loaded:
         raise ValueError(f"Everything should be loaded, following aren't: {not_loaded}")
 
+    # HVAR/VVAR without an explicit advance mapping are indexed by glyph ID
+    # (outer index 0, inner index == glyph ID): make the mapping explicit, keyed by
+    # glyph name, so that each glyph keeps its own deltas after the renumbering.
+    for tag, attr in (("HVAR", "AdvWidthMap"), ("VVAR", "AdvHeightMap")):
+        if tag in font and getattr(font[tag].table, attr, None) is None:
+            varIdxMap = ot.VarIdxMap()
+            varIdxMap.mapping = {g: i for i, g in enumerate(old_glyph_order)}
+            setattr(font[tag].table, attr, varIdxMap)
+
     font.setGlyphOrder(new_glyph_order)
 
     coverage_containers = {"GDEF", "GPOS", "GSUB", "MATH"}
